@@ -6,3 +6,6 @@ import XzVerif.Props.C11
 #print axioms Props.C11.C11_writeMatch_never_panics
 #print axioms Props.C11.C11_ring_read_bounded
 #print axioms Props.C11.C11_classic_reader_outcomes
+#print axioms Props.C11.C11_classic_reader_model_terminates
+#print axioms Props.C11.C11_lzma2_reader_model_terminates
+#print axioms Props.C11.C11_xz_reader_model_terminates
